@@ -9,6 +9,8 @@ import (
 	"os"
 	"strings"
 
+	otr3 "github.com/coyim/otr3"
+
 	"verif/harness/world"
 )
 
@@ -110,6 +112,16 @@ func secretBytes(id int) []byte {
 		return []byte("pass")
 	case 8:
 		return []byte("pass\x00")
+	case 9:
+		return []byte("open sesame ")
+	case 10:
+		return []byte(" open sesame")
+	case 11:
+		return []byte("1234")
+	case 12:
+		return []byte("1234\n")
+	case 13:
+		return []byte("\t1234")
 	}
 	return []byte(fmt.Sprintf("smp-secret-%d", id))
 }
@@ -145,6 +157,11 @@ func execStep(w *world.World, s Step) bool {
 		w.SMPAbort(p)
 	case "FragSize":
 		w.SetFragSize(p, s.Z)
+	case "SetKeys":
+		// the application registers another long-term key (listed first) while the conversation goes
+		// on: nothing about the running session may change
+		other, _ := world.DSAKey("X")
+		p.Conv.SetOurKeys([]otr3.PrivateKey{other, p.Priv})
 	case "Recover":
 		// as a user would: while the two sides are not in one encrypted session, end and start over
 		for k := 0; k < 4; k++ {
@@ -376,6 +393,13 @@ func genSchedule(rng *rand.Rand, family string, depth int) *Schedule {
 		// back to back, aborted, answered late) interleaved with ordinary traffic
 		sc.Setup = "ake"
 		if rng.Intn(3) == 0 {
+			add(Step{A: "SetKeys", P: ps[rng.Intn(2)]})
+			add(Step{A: "Send", P: "A", T: 901})
+			add(Step{A: "Deliver", P: "B"})
+			add(Step{A: "Send", P: "B", T: 902})
+			add(Step{A: "Deliver", P: "A"})
+		}
+		if rng.Intn(3) == 0 {
 			add(Step{A: "SMPAnswer", P: ps[rng.Intn(2)], S: 1})
 		}
 		for d := 0; d < depth; d++ {
@@ -403,10 +427,10 @@ func genSchedule(rng *rand.Rand, family string, depth int) *Schedule {
 			if ini == "B" {
 				oth = "A"
 			}
-			s1 := 1 + rng.Intn(8)
+			s1 := 1 + rng.Intn(13)
 			s2 := s1
 			if rng.Intn(3) == 0 {
-				s2 = 1 + rng.Intn(8)
+				s2 = 1 + rng.Intn(13)
 			}
 			traffic := func() {
 				for k := 0; k < rng.Intn(3); k++ {
